@@ -17,6 +17,7 @@ IMPORT_CHOICES = [
     ("from typing import List\n", None),
     ("from shapes import *\n", "Square"),
     ("import json as js, sys\n", "js.dumps([1])"),
+    ("from typing import Any, Sequence\n", None),          # typing names nothing uses (e.g. only in `# type:` comments)
 ]
 
 
@@ -51,7 +52,7 @@ def gen_source(rng, idx):
                 % ("    from shapes import Circle\n" if make_local else ""))
     if shadow == "local":
         body.append("def other():\n    from shapes import Square as Point\n    return Point\n\n")
-    body.append("def config(opts):\n    return sorted(opts)\n\n")
+    body.append("def config(opts):\n%s    return sorted(opts)\n\n" % ("    from typing import Deque  # unused, local\n" if rng.random() < 0.3 else ""))
     body.append("class Shop:\n    rate = 2\n\n    def price(self, item, qty: int = 1):\n        \"\"\"Doc.\"\"\"\n        return self.rate * qty\n\n"
                 "    @staticmethod\n    def util(x):\n        return [x]\n\n")
     body.append("def run():\n    out = [area(make(1)[0]), config({'b': 1, 'a': 2}), Shop().price('x', 2), Shop.util(1)]\n"
@@ -61,8 +62,9 @@ def gen_source(rng, idx):
                  "make_local": make_local, "shadow": shadow}
 
 
-def traces_for(mod, k):
-    """hand-made traces using classes of the helper modules, typing generics, collections.OrderedDict and (k>0) dicts"""
+def traces_for(mod, k, plain=False):
+    """hand-made traces using classes of the helper modules, typing generics, collections.OrderedDict and (k>0) dicts;
+    plain: builtin classes only, so that the stub has no import at all"""
     import collections
     import typing
     from monkeytype.tracing import CallTrace
@@ -71,6 +73,13 @@ def traces_for(mod, k):
     from geo import points
     od = collections.OrderedDict
     area = mod.area.__wrapped__ if hasattr(mod.area, "__wrapped__") else mod.area
+    if plain:
+        return [
+            # (functions with a None default are left out: the stub of such a function imports typing.Optional, used or not)
+            CallTrace(mod.config, {"opts": str}, str),
+            CallTrace(mod.Shop.price, {"self": mod.Shop, "item": str, "qty": int}, int),
+            CallTrace(mod.Shop.__dict__["util"].__func__, {"x": int}, float),
+        ]
     tr = [
         CallTrace(area, {"shape": shapes.Circle, "scale": type(None)}, str),
         CallTrace(area, {"shape": shapes.Circle, "scale": od}, str),
